@@ -56,6 +56,10 @@ STATIC = [
     ("fail-other", H % "f12" + "float alpha = 1\nstr r = \"s\"\nG(alpha[0]) | 0\n"),
     ("fail-other", H % "f13" + "int m = 3\nfloat array A =\n    1, 2\nfor int r in 0:5\n    G(A[r]) | r\n"),
     ("fail-other", H % "f14" + "float array p0 =\n    1, 2\nfloat alpha = 2\nfloat array A[2] =\n    {A}\n"),
+    ("valid", H % "b1" + "float array A =\n    " + ", ".join(str(i + 0.5) for i in range(40)) + "\nG(A[7], A[39]) | 0\n"),
+    ("valid", H % "b2" + "float array A =\n    " + ", ".join(str(100 + i) for i in range(40)) + "\nG(A[7], A[39]) | 0\n"),
+    ("valid", H % "b3" + "float array m =\n    " + ", ".join(str(-i) for i in range(40)) + "\nG(m[7], m[0]) | 1\n"),
+    ("fail-undefined", H % "b4" + "float array A =\n    " + ", ".join(str(7 * i) for i in range(40)) + "\nG(A[7]) | 0\nH(zz) | 1\n"),
     ("probe", H % "p1" + "target dev (shots=alpha)\nG | 0\n"),
     ("probe", H % "p2" + "target dev (x=m, y=2)\nG | 0\n"),
     ("probe", H % "p3" + "type custom (k=A)\nG | 0\n"),
@@ -254,6 +258,8 @@ def run(ctx):
                 c = rng.random()
                 if seq and c < 0.35:
                     seq.append(rng.choice([m for m in pool if m["cls"] == "probe"]))
+                elif c < 0.5:
+                    seq.append(rng.choice([m for m in pool if m["kind"] == "file"]))
                 else:
                     seq.append(rng.choice(pool))
             progs = []
